@@ -205,6 +205,18 @@ def search(payload):
                     fails.append({"p": label, "components_structure": [str(skey(c)) for c in comps], "position": bad_i, "value": repr(vals[bad_i])[:300],
                                   "p(value)": repr(call(p, vals[bad_i])), "seed": seed})
                 break
+    # HISTORY (gencommon.history_block): requests on TEMPORARY predicates one after the other, judged by fresh copies; the caller mutates
+    # the containers it was handed and asks again; a conjunction whose second operand cannot be applied to the first one's candidates
+    from predicate.standard_predicates import is_falsy_p as _falsy, is_truthy_p as _truthy, is_not_none_p as _notnone, gt_p as _gt9
+    hm = []
+    for i in range(1, 9):
+        hm += [(f"any_p(ge_p({1000 * i}))", lambda i=i: _any0(ge_p(1000 * i))), (f"any_p(le_p({-1000 * i}))", lambda i=i: _any0(le_p(-1000 * i))), (f"all_p(ge_p({1000 * i}))", lambda i=i: _all0(ge_p(1000 * i))),
+               (f"is_set_of_p(ge_p({500 * i}))", lambda i=i: _setof(ge_p(500 * i)))]
+    hm += [("is_empty_p", lambda: PP.is_empty_p), ("is_falsy_p", lambda: _falsy), ("is_truthy_p", lambda: _truthy), ("all_p(is_empty_p)", lambda: _all0(PP.is_empty_p)), ("any_p(is_truthy_p)", lambda: _any0(_truthy)),
+           ("is_not_none_p & ge_p(0)", lambda: _notnone & ge_p(0)), ("is_int_p & gt_p(-5)", lambda: is_int_p & _gt9(-5)), ("ge_p(0) & is_not_none_p", lambda: ge_p(0) & _notnone)]
+    hn, hfails = g.history_block("true", GENF, hm, seed=int(payload["seed"]))
+    n += hn
+    fails += hfails
     # judged by a reference written from the CONSTRUCTOR CALL, not by the object the library built (a factory that re-interprets its
     # arguments, or an object mutated on the way, would otherwise vouch for its own values)
     from predicate.set_predicates import in_p
